@@ -28,3 +28,48 @@ def bumpChecked (next num maxLen : Nat) : Option (Nat × Nat) :=
   if next + num > maxLen then none else some (next, next + num)
 
 end Slu
+
+namespace Slu
+
+/-! ### the dynamic L-supernode storage scheme (`DynamicSetMap` + `Glu_alloc(LUSUP)`, `SRC/pmemory.c`)
+
+`DynamicSetMap(jcol, num)` sets `map_in_sup[jcol] = nextlu` and advances `nextlu` by `num` (under `LULOCK`); `Glu_alloc(.., LUSUP, ..)` for a
+column whose H-supernode leader is `l` returns `map_in_sup[l]` and advances it by the request, with no check against the reservation.
+The slot list is the model's record of the reservations made so far (`used` = how far `map_in_sup[l]` has moved). -/
+
+structure DSlot where
+  leader : Nat
+  start : Nat
+  cap : Nat
+  used : Nat
+  deriving Repr, DecidableEq
+
+structure DState where
+  next : Nat                 -- `Glu->nextlu`
+  slots : List DSlot
+  deriving Repr, DecidableEq
+
+inductive DEv where
+  | reserve (leader cap : Nat)     -- DynamicSetMap(leader, cap)
+  | alloc (leader num : Nat)       -- Glu_alloc(.., num, LUSUP, ..) for a column of that H-supernode
+  deriving Repr, DecidableEq
+
+def bumpUsed (l n : Nat) (t : DSlot) : DSlot := if t.leader = l then { t with used := t.used + n } else t
+
+/-- one event; an allocation returns the extent (start, length) handed out -/
+def dstep (st : DState) : DEv → DState × Option (Nat × Nat)
+  | .reserve l c => ({ next := st.next + c, slots := st.slots ++ [{ leader := l, start := st.next, cap := c, used := 0 }] }, none)
+  | .alloc l n =>
+    match st.slots.find? (fun t => t.leader = l) with
+    | none => (st, none)
+    | some s => ({ st with slots := st.slots.map (bumpUsed l n) }, some (s.start + s.used, n))
+
+def drun : DState → List DEv → List (Option (Nat × Nat))
+  | _, [] => []
+  | st, e :: es => (dstep st e).2 :: drun (dstep st e).1 es
+
+def dfinal : DState → List DEv → DState
+  | st, [] => st
+  | st, e :: es => dfinal (dstep st e).1 es
+
+end Slu
